@@ -808,6 +808,9 @@ theorem runActs_stable (pub : Pub) (hp : PubStable pub) (acts : List Act) (w : W
       cases o with
       | none => exact h.trans (ih w')
       | some e => exact h
+    | call m =>
+      simp only [runActs]
+      exact StateStable.refl w
 
 theorem pubLoop_stable (pub : Pub) (hp : PubStable pub) (ch : Chan) (items : List Listener)
     (w : W) (fails : List Nat) : StateStable w (pubLoop pub ch items w fails).1 := by
